@@ -69,12 +69,13 @@ REQUIRED_BINS = ["fs12", "fs60", "hs", "mps_8", "mps_16", "mps_64", "buffer_defa
                  "len_0", "len_1", "len_mps", "len_mps_minus_1", "ack_new", "nak_new", "ack_repeat", "corrupt_no_handshake",
                  "truncated", "retry_after_corrupt", "retry_after_nak", "lost_ack_retransmit", "ping_ack", "ping_nak",
                  "foreign_traffic", "foreign_mid_transfer", "zlp_ends_transfer", "multi_packet_transfer",
-                 "overflow_possible", "exact_fit", "overflow_at_last_byte", "release_mid_packet", "consumer_blocked", "stream_first", "stream_last",
+                 "overflow_possible", "exact_fit", "overflow_at_last_byte", "mps_512", "ack_with_less_than_mps_free", "overlong_packet", "overlong_acked", "release_mid_packet", "consumer_blocked", "stream_first", "stream_last",
                  "corrupt_full_packet_at_transfer_start", "corrupt_short_packet_mid_transfer", "nak_then_delivered_later"]
 REQUIRED_EVENTS = ["out_transactions", "handshakes_seen", "stream_beats", "packets_aligned", "flags_judged", "pings", "cycles_monitored", "hs_sessions"]
 ASSUMPTIONS = ["legal host: waits for the response window before the next packet, SETUP never sent to the endpoint, tokens have good CRC5",
                "a NAK is required to be justified only by 'a max-size packet did not fit when the data packet started'",
-               "a repeated-toggle packet may be answered ACK or NAK, but must be answered",
+               "a repeated-toggle packet must be ACKed (USB 2.0 8.6.3); packets longer than max_packet_size are judged only for 'ACK => delivered "
+               "exactly once, otherwise nothing' (response, flags and the next `first` are unjudged); DATA2/MDATA are not sent",
                "high-speed sessions use the real reset sequencer with the device-chirp duration constant scaled from 2 ms to 10 us "
                "(harness-side, restored after elaboration); a share of the thorough tier uses the unscaled constant",
                "occupancy used to justify NAK / PING answers is an interval while a packet ACKed under the conditions of known finding "
@@ -95,9 +96,11 @@ def run_case(rng, tier, res):
     from luna.gateware.usb.usb2.device import USBDevice
     from luna.gateware.usb.usb2.endpoints.stream import USBStreamOutEndpoint
 
-    mode = rng.choice(["fs12"] * 9 + ["fs60"] * 8 + ["hs"] * 3)
+    mode = rng.choice(["fs12"] * 9 + ["fs60"] * 8 + ["hs"] * 4)
     real_chirp = (mode == "hs" and tier == "thorough" and rng.random() < 0.07)
     mps = rng.choice([8, 8, 16, 16, 32, 64, 64])
+    if mode == "hs" and rng.random() < 0.5:
+        mps = 512           # the high-speed bulk packet size (rx_cnt / space arithmetic at 9-10 bits)
     bsel = rng.choice(["default", "default", "eq_mps", "mps_plus_1", "two", "three", "random"])
     bufsize = {"default": None, "eq_mps": mps, "mps_plus_1": mps + 1, "two": 2 * mps, "three": 3 * mps,
                "random": rng.randint(mps, 4 * mps)}[bsel]
@@ -263,7 +266,7 @@ def run_case(rng, tier, res):
             res.desc["steps"].append(a)
         res.sig(a)
 
-    def send_out(payload, toggle, *, fault=None, directed=None):
+    def send_out(payload, toggle, *, fault=None, directed=None, overlong=False):
         """One OUT transaction to the DUT endpoint.  Returns the Pkt."""
         pid = U.DATA1 if toggle else U.DATA0
         raw = bytearray(U.data(pid, payload))
@@ -296,13 +299,14 @@ def run_case(rng, tier, res):
         p = Pkt(uid=payload[0] if payload else None, payload=bytes(payload), toggle=toggle, cat=cat, resp=None, accepted=False,
                 hist=list(state["since_accept_discard"]))
         p.after_loss = eff
+        p.overlong = overlong
         step_note("out", len(payload), toggle, cat, fault)
         yield from host.token(U.OUT, 0, epnum)
         yield from host.idle(rng.randint(1, 4) if mode != "fs60" else rng.randint(1, 12))
         occ_lo, p.occ_start = occupancy()
         p.free_start = depth - p.occ_start            # lower bound of the free space
         p.could_overflow = p.occ_start + len(payload) > depth
-        p.maybe_lost = (mode == "fs60" and p.could_overflow)
+        p.maybe_lost = False     # (was: interval occupancy while finding ack_after_overflow_discard_fs60 was open; fixed in the repository)
         if p.could_overflow and cat == "good":
             res.bin("overflow_possible")
         if p.occ_start + len(payload) == depth and occ_lo == p.occ_start and cat == "good" and payload:
@@ -354,6 +358,10 @@ def run_case(rng, tier, res):
                 if eff < mps and not model["at_xfer_start"]:
                     res.bin("corrupt_short_packet_mid_transfer")
             return
+        if p.resp is None and p.overlong:
+            res.unjudged += 1          # babble: whether a device answers at all is not decided by the statement
+            state["since_accept_discard"].append(("silent", n))
+            return
         if p.resp is None:
             viol("no_handshake_for_good_packet" if p.cat == "good" else "no_handshake_for_repeated_toggle", ctx)
             if n and p.cat == "good":
@@ -364,10 +372,18 @@ def run_case(rng, tier, res):
             return
         if p.cat == "repeat":
             res.bin("ack_repeat" if p.resp == "ACK" else "nak_repeat")
+            if p.resp == "NAK":
+                # [USB 2.0 8.6.3] a receiver that sees a repeated toggle has already accepted that data: it discards the
+                # packet and ACKs (ignoring it needs no buffer space); a NAK would make the host retransmit it forever
+                viol("nak_for_repeated_toggle", ctx)
             return
         # good CRC, expected toggle
         if p.resp == "ACK":
             res.bin("ack_new")
+            if n and p.free_start < mps:
+                res.bin("ack_with_less_than_mps_free")
+            if p.overlong:
+                res.bin("overlong_acked")
             p.accepted = True
             p.xfer_start = model["at_xfer_start"]
             p.expect_last = n < mps
@@ -392,7 +408,7 @@ def run_case(rng, tier, res):
             state["last_acked"] = p
         else:
             res.bin("nak_new")
-            if p.free_start >= mps:
+            if p.free_start >= max(mps, n):
                 viol("nak_although_packet_fits", ctx + " free_at_start=%d" % p.free_start)
             if n:
                 state["since_accept_discard"].append(("nak", n))
@@ -569,10 +585,19 @@ def run_case(rng, tier, res):
                         if n < mps:
                             plan = []
                         res.bin("overflow_at_last_byte" if tgt == over else "directed_exact_fit")
+                overlong = rng.random() < 0.04
+                if overlong:
+                    # babble: a good-CRC packet longer than max_packet_size (rx_cnt wraps).  Judged only as far as the statement
+                    # goes: ACK => the whole payload is delivered once, anything else => nothing of it; flags unjudged.
+                    plan.insert(0, n)
+                    n = mps + rng.choice([1, 1, 2, mps, rng.randint(1, mps)])
+                    res.bin("overlong_packet")
                 payload = new_payload(n)
                 f = rng.random()
                 fault = None
-                if f < 0.14:
+                if overlong:
+                    pass
+                elif f < 0.14:
                     fault = "crc"
                 elif f < 0.17:
                     fault = "crc_swap"
@@ -580,10 +605,10 @@ def run_case(rng, tier, res):
                     fault = "truncate"
                 elif f < 0.23:
                     fault = "badpid"
-                p = yield from send_out(payload, model["toggle"], fault=fault, directed=directed)
+                p = yield from send_out(payload, model["toggle"], fault=fault, directed=directed, overlong=overlong)
                 if p.cat == "corrupt":
                     state["pending"], state["pending_why"] = payload, "corrupt"
-                elif p.resp == "NAK":
+                elif p.resp == "NAK" and not overlong:
                     state["pending"], state["pending_why"] = payload, "nak"
                 if state["pending"] is not None and rng.random() < 0.2:
                     state["pending"] = None        # abandoned: the transfer plan simply continues with new data
@@ -626,6 +651,12 @@ def align(res, log, beats, mode, mps, depth, viol):
             got = bytes(x[1] for x in beats[pos:pos + n])
             if got == p.payload:
                 res.event("packets_aligned")
+                if p.overlong:
+                    pos += n
+                    after_loss = True          # transfer state after babble is not decided: next `first` unjudged
+                    prev_acc.append(p)
+                    res.unjudged += 1
+                    continue
                 # flags
                 for j in range(n):
                     cyc, _, fi, la = beats[pos + j]
